@@ -809,7 +809,7 @@ func pollIntervalUsable(c *core.Ctx) string {
 
 func Run(c *core.Ctx) core.FinishOpts {
 	// tumble
-	nT := c.Pick(650, 130000)
+	nT := c.Pick(4000, 130000)
 	rngT := c.Rng("tumble")
 	tcs := make([]*tumbleCase, nT)
 	for i := range tcs {
@@ -829,11 +829,37 @@ func Run(c *core.Ctx) core.FinishOpts {
 		}
 		runRange(c, rcs[i], i)
 	})
+	// range with bounds tied to an outer record: the same materialized node runs once per outer record
+	nRO := c.Pick(240, 3000)
+	rngRO := c.Rng("range-outer")
+	ros := make([]*rangeOuterCase, nRO)
+	for i := range ros {
+		ros[i] = genRangeOuter(rngRO, i)
+	}
+	core.Parallel(nRO, 16, func(i int) {
+		if c.Only != "" && c.Only != ros[i].id {
+			return
+		}
+		runRangeOuter(c, ros[i], i)
+	})
+	// tumble over sources with an implicit time field and an explicit / matching / omitted time_field
+	nTS := c.Pick(1440, 36000)
+	rngTS := c.Rng("tumble-src")
+	tss := make([]*tumbleSrcCase, nTS)
+	for i := range tss {
+		tss[i] = genTumbleSrc(rngTS, i)
+	}
+	core.Parallel(nTS, 16, func(i int) {
+		if c.Only != "" && c.Only != tss[i].id {
+			return
+		}
+		runTumbleSrc(c, tss[i], i)
+	})
 	c.Note("range_exhaustive_square", "all (start,end) in [-6,6]^2 = 169 pairs, each with and without the optimizer")
 	c.Note("range_cases", len(rcs))
 	// poll
 	interval := pollIntervalUsable(c)
-	nP := c.Pick(40, 600)
+	nP := c.Pick(120, 600)
 	rngP := c.Rng("poll")
 	pcs := make([]*pollCase, nP)
 	for i := range pcs {
@@ -848,10 +874,12 @@ func Run(c *core.Ctx) core.FinishOpts {
 	return core.FinishOpts{
 		Level: "exploration",
 		Rule: "tumble: L in {1ns,1s,7s,1min,1day} x 13 offsets (negative, 0, <L, =L, >L) x seeded time sequences (pre/post-epoch, on and 1ns around window boundaries, retractions, source watermarks, implicit or explicit time field); " +
+			"tumble over sources that already have a time field (memdb table with TimeField, max_diff_watermark, nested tumble) x time_field naming the other time column / the same one / omitted: the window must contain the designated column's value; " +
+			"range with bounds taken from an outer record (LOOKUP JOIN, scalar subquery) with the materialized plan run 1-3 times over different outer rows; " +
 			"range: all (start,end) in [-6,6]^2 plus 20 extremes near Min/MaxInt64 and 2^31/2^32/2^53 plus expression arguments, with and without optimizer; " +
 			"poll: scripted source whose successive runs return different snapshots (unchanged, empty, grown, shrunk, fresh), stopped by a consumer error at the k-th watermark, k in 1..5; " +
 			"non-trivial = tumble case with >= 2 records, non-empty range, poll case with a non-empty retraction; distinct by the case's parameters",
-		Floor:      c.Pick(500, 80000),
+		Floor:      c.Pick(3000, 80000),
 		Exhaustive: true,
 		Assumptions: []string{
 			"tumble multiples are relative to Go's zero time (year 1), the origin time.Truncate documents; alignment to the Unix epoch is counted, not judged (differs only for L=7s)",
